@@ -242,7 +242,10 @@ def decide(case, ctx, c, first):
         ok, got = ctx.call(cg.props.signal_probability, c, n, approx=False)
         ctx.count("cmp:signal_probability")
         if not ok:
-            if isinstance(got, NotImplementedError):
+            from rv.oracle.graphdefs import reach
+
+            if isinstance(got, NotImplementedError) and any(net.types[x] in ("bb_input", "bb_output") for x in reach(net.preds, [n]) | {n}):
+                # documented refusal of tx.subcircuit: the cone of n contains a blackbox pin
                 ctx.reject("subcircuit_with_blackbox")
                 continue
             ctx.violation("signal_probability_raised", f"signal_probability({n!r}) raised {got!r}\n{getattr(got, '_tb', '')}")
